@@ -537,6 +537,19 @@ def r6(ctx, retsets):
         good = rets == ({1} if stv == est else {0})
         ctx.check(good, "C15.R6", "some-group-established[status %s]" % stname[8:], "%s:%d" % (ie.relfile, ie.line),
                   "with one group in this status the answer is %s" % sorted(rets, key=str), key="C15.R6:some-est:%s" % stname)
+    # a group that was closed can be started again: rtr_stop leaves a socket that had a thread in RTR_CLOSED (not in the final
+    # RTR_SHUTDOWN, which rtr_fsm_start treats as "leave at once"), whatever state the socket was in
+    from engine import dt
+    sf = pdb.fn("rtr_stop")
+    ctx.touch(sf)
+    TID = ("fld", ("arg", 0), "rtr_socket.thread_id")
+    outs_s = dt.eval_inline(sf, pdb, {TID: ("nin", frozenset([0]))}, {"rtr_change_socket_state"})
+    finals = set()
+    for o in outs_s:
+        stv = [e[3] for e in o["events"] if e[0] == "store" and e[2] == "rtr_socket.state"]
+        finals.add(stv[-1] if stv else None)
+    ctx.check(bool(outs_s) and finals == {pdb.enum_value("RTR_CLOSED")}, "C15.R6", "rtr_stop:leaves-the-socket-restartable", "%s:%d" % (sf.relfile, sf.line),
+              "state after stopping a socket that had a thread: %s (expected RTR_CLOSED on every path)" % sorted(finals, key=str), key="C15.R6:rtr_stop:closed")
     gb = pdb.fn("get_best_inactive_rtr_mgr_group")
     ctx.touch(gb)
     closed = pdb.enum_value("RTR_MGR_CLOSED")
@@ -601,6 +614,10 @@ def check(ctx):
         else:
             ctx.ok("C15.R7", "%s:pairing" % f.name, "%s:%d" % (f.relfile, f.line), "%d acquires balanced on %d return states" % (st["acquires"], st["rets"]))
     ctx.floor("C15.R7", n, 8)
+    from specs import C07
+    with ctx.shared({"C07.R2": ("C15.R8", "last_update is non-zero only after a completed synchronisation: the all-sockets-synced predicate that gates "
+                                "ESTABLISHED reads it")}):
+        C07.r2(ctx, retsets)
     ctx.not_decided("interleavings of state callbacks coming from several socket threads at once")
     ctx.note("state and status names are decided under C20")
 
